@@ -35,6 +35,9 @@ class Config:
         self.tier = kw.get("tier", "quick")
         self.use_fallback = kw.get("use_fallback", True)
         self.concrete = kw.get("concrete", False)
+        # opt-in (per obligation): decide the feasibility of sequence-free branch conditions with the LIA abstraction only
+        # (sound: a branch is only ever pruned on `unsat`; an infeasible path that survives has a false path condition)
+        self.lia_branch = kw.get("lia_branch", False)
 
 
 class Obl:
@@ -55,6 +58,10 @@ class Obl:
                 "secs": round(self.secs, 4), "path": self.path, "detail": self.detail, "kind": self.kind}
 
 
+_SEQFREE = {}
+_SEQFREE_KEEP = []
+
+
 class PathCtx:
     def __init__(self, prefix, cfg: Config):
         self.cfg = cfg
@@ -66,7 +73,7 @@ class PathCtx:
         self.solver.set("timeout", cfg.branch_timeout_ms)
         self.lia = z3.Solver()  # abstraction: only the assertions free of sequence terms
         self.lia.set("timeout", 2000)
-        self._seqfree = {}
+        self._seqfree = _SEQFREE  # shared across paths: the cached terms are kept alive, so their ast ids stay unique
         self.pc = []
         self.counter = 0
         self.inputs = []  # (name, kind, payload)
@@ -136,6 +143,7 @@ class PathCtx:
                 cache[i] = False
             else:
                 cache[i] = all(cache.get(c.get_id(), True) for c in e.children())
+            _SEQFREE_KEEP.append(e)
         return cache[t.get_id()]
 
     def _lia_unsat(self, term):
@@ -194,7 +202,7 @@ class PathCtx:
         # cheap abstraction first, then the full solver asked only for infeasibility
         can_t = not self._lia_unsat(term)
         can_f = can_t and not self._lia_unsat(nterm)
-        if can_t and can_f:
+        if can_t and can_f and not (self.cfg.lia_branch and self.seq_free(term)):
             self.solver.set("timeout", min(self.cfg.branch_timeout_ms, 1500))
             can_f = self._check(nterm) != z3.unsat
             if can_f:
